@@ -24,10 +24,10 @@ CATEGORY_TEXT = {
 # property -> (topic text, categories or None for all, predicate on the kind sequence or None)
 ASPECTS: dict[str, tuple[str, set[str] | None, Callable[[list[str]], bool] | None]] = {
     "C03": ("everything the fold compares", None, None),
-    "C01": ("values and positions (the compiled reader is the default reader of parse(dumps(v)))", {"values", "fetch", "end", "raise"}, None),
-    "C02": ("values and positions (the compiled reader is the default reader of dumps(parse(b)))", {"values", "fetch", "end", "raise"}, None),
-    "C08": ("an image cut one byte short raises EOFError", {"eof"}, None),
-    "C06": ("sequences with bit-fields", {"values", "fetch", "end", "raise"}, lambda seq: any(":" in n for n in seq)),
+    "C01": ("values and positions (the compiled reader is the default reader of parse(dumps(v)))", {"values", "fetch", "end", "raise", "shared"}, None),
+    "C02": ("values and positions (the compiled reader is the default reader of dumps(parse(b)))", {"values", "fetch", "end", "raise", "shared"}, None),
+    "C08": ("an image cut one byte short raises EOFError; no state survives a failed parse", {"eof", "shared"}, None),
+    "C06": ("sequences with bit-fields", {"values", "fetch", "end", "raise", "shared"}, lambda seq: any(":" in n for n in seq)),
     "C16": ("sequences with pointers", {"values", "raise", "sizes"}, lambda seq: any("p32" in n for n in seq)),
     "C04": ("positions and consumed size", {"fetch", "end", "sizes"}, None),
     "C07": ("sequences with arrays", {"values", "context", "sizes", "fetch", "raise"}, lambda seq: any("[" in n or n.startswith(("dyn", "c5", "w3", "c200")) for n in seq)),
